@@ -162,7 +162,7 @@ var schemaTokens = []string{"{", "}", "[", "]", ",", ":", "\"a\"", "\"", "\\", "
 func TestPropTokens(t *testing.T) {
 	registerAll()
 	ev.KeepFirst("tokens")
-	maxLen := ev.N(2, 3)
+	maxLen := ev.N(2, 4)
 	var n, nt, bad int64
 	gen.Shortlex(schemaTokens, maxLen, ev.Mine, func(b []byte, toks []int) {
 		c := Case{Entry: "all", Text: string(b)}
